@@ -49,7 +49,12 @@ G == << VI(0), VI(1), VI(-1), VI(2), VI(-2), VI(3), VI(-3), VI(5), VI(7), VI(10)
         VRat(1, 2), VRat(-1, 2), VRat(1, 4), VRat(3, 2), VRat(-3, 2), VRat(5, 2), VRat(-5, 2),        \* 41..47
         VRat(7, 4), VRat(255, 2), VRat(-257, 2), VRat(257, 2), VRat(33554433, 33554432),              \* 48..52
         NZero, PInf, NInf_, NaN,                                                                      \* 53..56
-        VHuge(1, 63), VHuge(1, 100), VHuge(-1, 100), VHuge(1, 200) >>                                 \* 57..60
+        VHuge(1, 63), VHuge(1, 100), VHuge(-1, 100), VHuge(1, 200),                                   \* 57..60
+        \* subnormal and near-overflow magnitudes: 2^-1074 (smallest binary64 subnormal), 2^-1030
+        \* (subnormal: its reciprocal overflows), 2^-1022 (smallest normal), the binary32 counterparts
+        \* 2^-149, 2^-126, and 2^127, 2^1023 (the largest powers of two), -2^-1030
+        VTiny(1, 1074), VTiny(1, 1030), VTiny(1, 1022), VTiny(1, 149), VTiny(1, 126),                 \* 61..65
+        VHuge(1, 127), VHuge(1, 1023), VTiny(-1, 1030) >>                                             \* 66..68
 NG == Len(G)
 Tiny == 52        \* 1 + 2^-25: differs from 1 by less than the Equals epsilon
 
@@ -62,11 +67,11 @@ ValsOf == [T \in TB |-> SortedSeq({i \in 1..NG : Holds(T, G[i])})]
 
 \* subsets of the grid used by the operation classes (as index sets)
 MoreIf(S) == IF Rich = 1 THEN S ELSE {}
-CmpSet   == {1, 3, 4, 7, 17, 18, 19, 21, 25, 31, 32, 33, 39, 40, 41, 47, 49, 50, 53, 54, 55, 56}
+CmpSet   == {1, 3, 4, 7, 17, 18, 19, 21, 25, 31, 32, 33, 39, 40, 41, 47, 49, 50, 53, 54, 55, 56, 62, 64}
             \cup MoreIf({2, 9, 20, 24, 30, 34, 36, 37, 51, 57, 59})
-RingSet  == {1, 2, 3, 4, 7, 9, 17, 18, 19, 24, 32, 39, 40, 41, 47, 53, 54, 56}
+RingSet  == {1, 2, 3, 4, 7, 9, 17, 18, 19, 24, 32, 39, 40, 41, 47, 53, 54, 56, 61, 62, 63, 64, 65, 66, 67}
             \cup MoreIf({5, 15, 20, 25, 31, 35, 38, 44, 49, 55, 57})
-MathSet  == {1, 2, 3, 4, 5, 6, 8, 41, 42, 43, 44, 45, 46, 48, 53, 54, 55, 56}
+MathSet  == {1, 2, 3, 4, 5, 6, 8, 41, 42, 43, 44, 45, 46, 48, 53, 54, 55, 56, 62, 64, 66, 67}
 MathXtra(op) == CASE op = "Log1pExp" -> {10, 12, 13, 14, 15, 16}       \* the branches -37, 18, 33.3
                   [] op \in {"Exp", "Sinh", "Cosh", "Tanh", "Logistic", "Sigmoid"} -> {10, 11, 12}
                   [] op \in {"Erf", "Erfc", "LogErfc"} -> {7, 10, 11}
@@ -74,7 +79,7 @@ MathXtra(op) == CASE op = "Log1pExp" -> {10, 12, 13, 14, 15, 16}       \* the br
                   [] op = "Lgamma" -> {7, 10, 12, 15, 29, 47, 50}     \* poles, both signs of Gamma, large arguments
                   [] op = "Gamma" -> {7, 10, 12, 13, 15, 47, 50}
                   [] OTHER -> {}
-Math2Set == {1, 2, 3, 4, 5, 6, 15, 21, 41, 42, 44, 54, 55, 56} \cup MoreIf({7, 8, 10, 43, 46, 53})
+Math2Set == {1, 2, 3, 4, 5, 6, 15, 21, 41, 42, 44, 54, 55, 56} \cup MoreIf({7, 8, 10, 43, 46, 53, 62, 67})
 Pick(T, S) == SortedSeq({i \in S : Holds(T, G[i])})
 CmpVals  == [T \in AllTypes |-> Pick(T, CmpSet)]
 RingVals == [T \in AllTypes |-> Pick(T, RingSet)]
@@ -129,7 +134,7 @@ Emit(c) == PrintT(ToJson(c))
 \* the type in which receiver R evaluates a real-valued function of its operands
 EvalType(R) == IF Cls(R) = "float" THEN R ELSE "float64"
 \* the view overflowed / is not the operand any more: nothing is demanded
-Lost(own, x) == (IsInfV(x) /\ ~IsInfV(own)) \/ x.k = "idef"
+Lost(own, x) == (IsInfV(x) /\ ~IsInfV(own)) \/ x.k = "idef" \/ (own.k = "tiny" /\ x.k # "tiny")    \* (underflow to 0)
 
 (* -- modelled known deviations (known_findings.d/C02.json): what the code is known to compute instead.
       A case carries `dev` next to `exp`; an observation that misses `exp` is the known finding only if it
@@ -311,34 +316,58 @@ IntVecs2 == << <<6>>, <<2, 7>>, <<3, 2, 4>>, <<4, 4>>, <<2, 3, 8>>, <<8, 5>>,
 FltVecs2 == << <<44, 41>>, <<4, 46, 42>>, <<43, 48>>, <<43, 1>>, <<2, 44, 41>> >>
 PosVecs  == << <<4>>, <<4, 6>>, <<2, 4, 6>>, <<6, 2>>, <<1, 2>>, <<2, 1, 4>>, <<6, 1>>, <<1, 1>>, <<1>> >>   \* entries >= 0
 PosFlt   == << <<41, 44>>, <<43, 2, 46>>, <<2, 8>>, <<1, 41>>, <<44, 1, 43>> >>
+\* spreads beyond the range of exp (100, 200, 32767): alpha * (max - min) > 88.7 (binary32) / 709.8 (binary64)
+PosBig   == << <<1, 15>>, <<15, 21>>, <<1, 24>>, <<24, 1, 15>> >>
 Mats     == << <<4, 3, 2, 6>>, <<2, 1, 1, 2>>, <<7, 4, 8, 2>>, <<1, 2, 4, 1>>, <<1, 1, 1, 6>> >>   \* 2x2, row major
 FltMats  == << <<41, 44, 4, 43>>, <<1, 41, 44, 1>> >>
 Storages == {"dense", "sparse"}
 ValsAt(s) == [k \in 1..Len(s) |-> G[s[k]]]
 XSeq(a, n) == [k \in 1..n |-> X(a + k)]
-VecExpTerm(op, n, alpha) ==
+\* SmoothMax / LogSmoothMax: the exp-weighted mean  sum x_i w_i / sum w_i,  w_i = exp(alpha x_i).  Multiplying all
+\* weights by exp(-alpha x_m) does not change it; with m an entry of largest alpha x_i every exponent is <= 0, so
+\* the same number can be evaluated whatever the spread (the specification knows the operand values)
+SmoothMaxShifted(s, alpha, m) ==
+  DivV(SumTerms([k \in 1..Len(s) |-> MulV(s[k], Exp(MulV(Q(alpha), Sub(s[k], s[m]))))]),
+       SumTerms([k \in 1..Len(s) |-> Exp(MulV(Q(alpha), Sub(s[k], s[m])))]))
+AlphaX(alpha, v) == RMul(alpha, RatOfV(v))
+ArgTop(vals, alpha) == CHOOSE k \in 1..Len(vals) : \A j \in 1..Len(vals) : ~RLt(AlphaX(alpha, vals[k]), AlphaX(alpha, vals[j]))
+TopAlphaX(vals, alpha) == AlphaX(alpha, vals[ArgTop(vals, alpha)])
+MinOfVals(vals) == vals[CHOOSE k \in 1..Len(vals) : \A j \in 1..Len(vals) : ~LtV(vals[j], vals[k])]
+MaxOfVals(vals) == vals[CHOOSE k \in 1..Len(vals) : \A j \in 1..Len(vals) : ~LtV(vals[k], vals[j])]
+VecExpTerm(op, vals, alpha) ==
+  LET n == Len(vals) IN
   IF op \in {"Mtrace", "Mnorm"}
   THEN MeaningM(op, << <<X(1), X(2)>>, <<X(3), X(4)>> >>)
+  ELSE IF op \in {"SmoothMax", "LogSmoothMax"} /\ RLt(RInt(40), TopAlphaX(vals, alpha))
+  THEN SmoothMaxShifted(XSeq(0, n), alpha, ArgTop(vals, alpha))
   ELSE MeaningV(op, XSeq(0, n), XSeq(n, n), alpha)
 EmitVec(op, R) ==
   \A ET \in WritableTypes :
     LET fl == Cls(ET) = "float" /\ Cls(R) = "float"     \* integer receivers: integer elements, small ones
         vs == IF op \in {"Mtrace", "Mnorm"} THEN (IF fl THEN Mats \o FltMats ELSE Mats)
-              ELSE IF op \in {"SmoothMax", "LogSmoothMax"} THEN (IF fl THEN PosVecs \o PosFlt ELSE PosVecs)
+              ELSE IF op \in {"SmoothMax", "LogSmoothMax"}
+                   THEN (IF fl THEN PosVecs \o PosFlt \o PosBig ELSE IF Cls(R) = "float" THEN PosVecs \o PosBig ELSE PosVecs)
               ELSE (IF fl THEN IntVecs \o FltVecs ELSE IntVecs)
         ws == IF fl THEN IntVecs2 \o FltVecs2 ELSE IntVecs2
         \* moderate alpha (alpha * max x of order 1: every entry matters); an extreme one on the log scale only
         alphas == IF op \in {"SmoothMax", "LogSmoothMax"}
                   THEN (IF Cls(R) = "int" THEN {VI(1)}
-                        ELSE IF op = "LogSmoothMax" THEN {VRat(1, 2), VI(1), VI(2), VI(20)}
-                        ELSE {VRat(1, 2), VI(1), VI(2)})
+                        \* both signs (alpha < 0: smooth minimum), moderate and extreme
+                        ELSE {VRat(1, 2), VI(1), VI(2), VI(20), VRat(-1, 2), VI(-1), VI(-2), VI(-20)})
                   ELSE {VZero}
     IN \* (an integer receiver has no log scale)
        (Cls(R) = "int" => op # "LogSmoothMax") =>
        \A i \in 1..Len(vs) : \A al \in alphas : \A st \in Storages :
+         \* the element type holds every entry; SmoothMax forms exp(alpha x_i) itself: inside the range of exp of
+         \* every storage type (LogSmoothMax is the variant for the rest)
+         (/\ \A k \in 1..Len(vs[i]) : Holds(ET, G[vs[i][k]])
+          /\ (op = "SmoothMax" => ~RLt(RInt(80), TopAlphaX(ValsAt(vs[i]), RatOfV(al))))) =>
          LET n == Len(vs[i])
              second == IF op = "VdotV" THEN ValsAt(ws[i]) ELSE NoVec
-             base == VCase(op, R, ET, st, ValsAt(vs[i]), second, al, VTerm(VecExpTerm(op, n, RatOfV(al))))
+             base0 == VCase(op, R, ET, st, ValsAt(vs[i]), second, al, VTerm(VecExpTerm(op, ValsAt(vs[i]), RatOfV(al))))
+             \* a mean with positive weights lies between the smallest and the largest entry
+             base == IF op \in {"SmoothMax", "LogSmoothMax"}
+                     THEN base0 @@ [lo |-> MinOfVals(ValsAt(vs[i])), hi |-> MaxOfVals(ValsAt(vs[i]))] ELSE base0
          IN \* `dev`: what the code is known to compute instead (known finding Mnorm without the square root);
             \* an observation that misses `exp` is that finding only if it equals `dev`
             IF op = "Mnorm"
